@@ -103,7 +103,7 @@ def spatial_part(ctx, H, drv):
     want = ["griddata", "rect_bivariate_spline", "regular_grid_interpolator"]
     if kinds != want:
         ctx.disagree("spatial interpolator registry", {"registered": kinds}, want, kinds)
-    for ci in range(ctx.budget(40, 800)):
+    for ci in range(ctx.budget(40, 500)):
         for kind in want:
             with H.guard(ctx, "spatial"):
                 xs, ys, flv = gen_grid(rng)
@@ -229,20 +229,16 @@ def check_spatial(ctx, H, case, f=None, drv=None):
                     ctx.disagree("regular_grid_interpolator vs bilinear model", {**case, "at": j}, float(mv[j]), float(r0[j]))
             ctx.count("spatial:regular_grid-vs-model")
     elif kind == "rect_bivariate_spline":
-        # tensor product of not-a-knot splines: along x on every grid row (the rows are the components), then along y
+        # the specification bicubicAt: the tensor product of not-a-knot splines
+        m = drv.ask1(f"c20 bicubic {H.rl(fr(v) for v in xs)} {H.rl(fr(v) for v in ys)} "
+                     f"{H.rrows([fr(v) for v in r_] for r_ in up)} {H.rl(fr(v) for v in px)} {H.rl(fr(v) for v in py)}")
+        if not m.startswith("ok "):
+            ctx.disagree("rect_bivariate_spline: the spline model has no value", case, m, r0.tolist())
+            return
+        mv = H.prl(m[3:])
         for j in range(k):
-            m1 = drv.ask1(f"c20 nakspline {len(ys)} {H.rl(fr(v) for v in xs)} {H.rrows([fr(up[r_, i]) for r_ in range(len(ys))] for i in range(len(xs)))} {rs(fr(px[j]))}")
-            if not m1.startswith("ok "):
-                ctx.disagree("rect_bivariate_spline: spline model along x", case, m1, "value")
-                return
-            col = H.prows(m1[3:])[0]
-            m2 = drv.ask1(f"c20 nakspline 1 {H.rl(fr(v) for v in ys)} {H.rrows([v] for v in col)} {rs(fr(py[j]))}")
-            if not m2.startswith("ok "):
-                ctx.disagree("rect_bivariate_spline: spline model along y", case, m2, "value")
-                return
-            mv = H.prows(m2[3:])[0][0]
-            if abs(fr(r0[j]) - mv) > fr(tol):
-                ctx.disagree("rect_bivariate_spline vs tensor not-a-knot spline model", {**case, "at": j}, float(mv), float(r0[j]))
+            if abs(fr(r0[j]) - mv[j]) > fr(tol):
+                ctx.disagree("rect_bivariate_spline vs tensor not-a-knot spline model", {**case, "at": j}, float(mv[j]), float(r0[j]))
         ctx.count("spatial:rect_bivariate_spline-vs-model")
 
 
